@@ -942,6 +942,10 @@ def _strip_info(lines):
     return [l for l in lines if not l.startswith("#")]
 
 
+ESCALATE_TOTAL_S = float(os.environ.get("VERIF_ESCALATE_TOTAL_S", "480"))
+_escalate_spent = [0.0]
+
+
 def conc_correspondence(ctx, harness_cmd, driver_cmd, runs, judge=None, label="tieC",
                         timeout=600, max_reports=3, signature_of=None, env=None,
                         escalate=True, escalate_budget_s=240):
@@ -1030,7 +1034,12 @@ def conc_correspondence(ctx, harness_cmd, driver_cmd, runs, judge=None, label="t
         if p:
             reported += 1
     only_model = [d for d in bad_model if d[0] not in {i for i, _ in bad_prop}]
-    if only_model and not bad_prop and escalate:
+    if (only_model and not bad_prop and escalate and not any(f for _, f in ctx.violations)
+            and _escalate_spent[0] < ESCALATE_TOTAL_S):
+        # (skipped once a concrete failing input is known, and all escalations of one check run
+        # share ESCALATE_TOTAL_S)
+        t_esc0 = time.time()
+        escalate_budget_s = min(escalate_budget_s, ESCALATE_TOTAL_S - _escalate_spent[0])
         # SEARCH (DESIGN §2.6): the trace tie is broken and the runs so far show no property
         # failure. Look harder on the implementation itself, on the configurations whose traces
         # differ: deeper systematic exploration + many more random/PCT schedules, judged by the
@@ -1079,6 +1088,7 @@ def conc_correspondence(ctx, harness_cmd, driver_cmd, runs, judge=None, label="t
                     if time.time() > t_end:
                         break
         ctx.cov["ties"][label]["escalated_search_runs"] = tried
+        _escalate_spent[0] += time.time() - t_esc0
         if found:
             r, a, msg = found
             sched = next((l[len("schedule "):] for l in a["out"] if l.startswith("schedule ")), "")
@@ -1167,7 +1177,8 @@ def atomic_sites(repo_rel, function=None):
     return sites
 
 
-def explore_schedules(harness_cmd, conf, bound, max_runs=20000, batch=400, env=None, timeout=600):
+def explore_schedules(harness_cmd, conf, bound, max_runs=20000, batch=400, env=None, timeout=600,
+                      start_prefix=None, workers=None):
     """Systematic, preemption-bounded exploration (CHESS-style) of the REAL code under the
     deterministic scheduler. A run is `sched prefix <tokens>`: the prefix is replayed, then
     the scheduler continues non-preemptively and reports, for every step, which threads were
@@ -1180,13 +1191,15 @@ def explore_schedules(harness_cmd, conf, bound, max_runs=20000, batch=400, env=N
         runs = 0
 
         def __iter__(self):
-            frontier = [([], 0)]           # (prefix tokens, preemptions used in the prefix)
-            seen_prefix = {()}
+            # (prefix tokens, preemptions used in the prefix); with start_prefix the exploration
+            # branches only after that (fixed) part: the tail of a history that reached a deep state
+            frontier = [(list(start_prefix or []), 0)]
+            seen_prefix = {tuple(start_prefix or [])}
             seen_sched = set()
             while frontier and self.runs < max_runs:
                 cur, frontier = frontier[:batch], frontier[batch:]
                 cases = [conf + ["sched prefix " + " ".join(p)] + ["run"] for p, _ in cur]
-                res = run_cases(harness_cmd, cases, timeout=timeout, env=env)
+                res = run_cases(harness_cmd, cases, timeout=timeout, env=env, workers=workers)
                 self.runs += len(cur)
                 for (prefix, used), r in zip(cur, res):
                     out = r["out"]
@@ -1209,7 +1222,7 @@ def explore_schedules(harness_cmd, conf, bound, max_runs=20000, batch=400, env=N
                         continue
                     tids = [int(t.rstrip("!~")) for t in sched]
                     # branch only at positions after the forced prefix
-                    for i in range(len(prefix), min(len(tids), len(masks))):
+                    for i in range(max(len(prefix), len(start_prefix or [])), min(len(tids), len(masks))):
                         m = masks[i]
                         prev = tids[i - 1] if i > 0 else None
                         # preemptions used by the default continuation up to position i
